@@ -202,7 +202,8 @@ def bounded(tier, seed, procs):
         if not ok:
             b2.fail(Failure("substitute-kwargs", f"what=history d={d0!r} dict_after={d!r}", dict(kind="subst-hist", d=repr(d0)), expected="caller's dict unchanged; later calls see only the dict",
                             actual=f"dict={d!r} second={outcome.describe(r2)[:80]} fresh={outcome.describe(fresh)[:80]}", functions=["substitute"]))
-    return [b, b2, b_under_wrappers(tier), b_variable_subclasses(tier)]
+    from props import c05 as P5
+    return [b, b2, b_under_wrappers(tier), b_variable_subclasses(tier), P5.b_hooks(tier)]
 
 
 _VSUB = []
